@@ -14,8 +14,8 @@ variable (O : Oracles) (env : Env)
 theorem cmp_null_false (op : CmpOp) (l r : Expr) (lv rv : Value)
     (hl : eval O env l = .ok lv) (hr : eval O env r = .ok rv) (hn : lv.isNull = true ∨ rv.isNull = true) :
     eval O env (.compare op l r) = .ok (.bool false) := by
-  simp only [eval, hl, hr, bind, Outcome.bind]
-  cases lv <;> cases rv <;> simp_all [Value.isNull, pure]
+  simp only [eval, hl, hr, bind, Outcome.bind, prepCompare, coerceTs]
+  cases lv <;> cases rv <;> simp_all [Value.isNull, pure, Outcome.bind]
 
 /-- `x IS NULL` / `x IS NOT NULL` test NULL -/
 theorem is_null_test (isNot : Bool) (l : Expr) (lv : Value) (hl : eval O env l = .ok lv) :
@@ -70,68 +70,236 @@ theorem int_div_exact (x y : Int) :
   · simp [hy]
   · by_cases h : inI64 (Int.tdiv x y) = true <;> simp [hy, h]
 
-/-- the membership test over already evaluated operands -/
-def inSpec (v : Value) (xs : List Value) : Bool :=
-  xs.any (fun x => !v.isNull && !x.isNull && compareValues v x == .eq)
+/-! ### IN / NOT IN mean the OR of `=` / the AND of `!=`, *as the evaluator evaluates `=`*
+
+`orOfEq e [m1, …, mn]` is the expression `e = m1 OR (… OR (e = mn OR FALSE))`, built from the evaluator's own
+`Compare` node (timestamp text is parsed, a member of another type is a type error, a NULL operand makes `=` false) and
+its short-circuiting `OR`. `x IN (…)` IS that expression — values and errors alike, for arbitrary member expressions. -/
+
+def orOfEq (e : Expr) : List Expr → Expr
+  | [] => .value (.bool false)
+  | m :: ms => .boolOp false (.compare .eq e m) (orOfEq e ms)
+
+def andOfNe (e : Expr) : List Expr → Expr
+  | [] => .value (.bool true)
+  | m :: ms => .boolOp true (.compare .ne e m) (andOfNe e ms)
+
+theorem prepCompare_null_right (v : Value) : prepCompare O v .null = .ok (v, .null) := by
+  cases v <;> simp [prepCompare, coerceTs, Value.isNull, Outcome.bind]
+
+theorem prepCompare_null_left (x : Value) (hx : x.isNull = false) : prepCompare O .null x = .ok (.null, x) := by
+  cases x <;> simp_all [prepCompare, coerceTs, Value.isNull, Outcome.bind]
+
+theorem tsOfText_nonnull (s : Bytes) (w : Value) (h : tsOfText O s = .ok w) : w.isNull = false := by
+  unfold tsOfText parseLit at h
+  simp only [bind, Outcome.bind] at h
+  cases hl : lookupB O.tsparse s with
+  | none => rw [hl] at h; simp at h
+  | some r =>
+    rw [hl] at h
+    cases r with
+    | none => simp [Option.map, pure] at h
+    | some t =>
+      simp only [Option.map, pure, Outcome.ok.injEq] at h
+      rw [← h]; rfl
+
+theorem coerceTs_nonnull (v x a b : Value) (hv : v.isNull = false) (hx : x.isNull = false)
+    (h : coerceTs O v x = .ok (a, b)) : a.isNull = false ∧ b.isNull = false := by
+  unfold coerceTs at h
+  split at h
+  · rename_i d sec f s
+    cases ht : tsOfText O s with
+    | ok w =>
+      rw [ht] at h
+      simp only [Outcome.bind, Outcome.ok.injEq, Prod.mk.injEq] at h
+      obtain ⟨h1, h2⟩ := h
+      subst h1; subst h2
+      exact ⟨rfl, tsOfText_nonnull O s w ht⟩
+    | error k => rw [ht] at h; simp [Outcome.bind] at h
+    | panic s => rw [ht] at h; simp [Outcome.bind] at h
+    | oracleMissing w => rw [ht] at h; simp [Outcome.bind] at h
+  · rename_i s d sec f
+    cases ht : tsOfText O s with
+    | ok w =>
+      rw [ht] at h
+      simp only [Outcome.bind, Outcome.ok.injEq, Prod.mk.injEq] at h
+      obtain ⟨h1, h2⟩ := h
+      subst h1; subst h2
+      exact ⟨tsOfText_nonnull O s w ht, rfl⟩
+    | error k => rw [ht] at h; simp [Outcome.bind] at h
+    | panic s => rw [ht] at h; simp [Outcome.bind] at h
+    | oracleMissing w => rw [ht] at h; simp [Outcome.bind] at h
+  · simp only [Outcome.ok.injEq, Prod.mk.injEq] at h
+    obtain ⟨h1, h2⟩ := h
+    subst h1; subst h2
+    exact ⟨hv, hx⟩
+
+theorem prepCompare_nonnull (v x a b : Value) (hv : v.isNull = false) (hx : x.isNull = false)
+    (h : prepCompare O v x = .ok (a, b)) : a.isNull = false ∧ b.isNull = false := by
+  unfold prepCompare at h
+  cases hc : coerceTs O v x with
+  | ok p =>
+    rw [hc] at h
+    simp only [Outcome.bind] at h
+    split at h
+    · simp at h
+    · simp only [Outcome.ok.injEq] at h
+      subst h
+      exact coerceTs_nonnull O v x _ _ hv hx hc
+  | error k => rw [hc] at h; simp [Outcome.bind] at h
+  | panic s => rw [hc] at h; simp [Outcome.bind] at h
+  | oracleMissing w => rw [hc] at h; simp [Outcome.bind] at h
+
+theorem eval_orOfEq_bool (e : Expr) (ms : List Expr) (r : Value) (h : eval O env (orOfEq e ms) = .ok r) :
+    ∃ b, r = .bool b := by
+  cases ms with
+  | nil => simp only [orOfEq, eval, Outcome.ok.injEq] at h; exact ⟨false, h.symm⟩
+  | cons m ms => exact bool_ops_two_valued O env false _ _ r h
+
+theorem evalIn_is_or (e : Expr) (v : Value) (he : eval O env e = .ok v) :
+    ∀ (ms : List Expr) (a : Bool), evalIn O env false v a ms = eval O env (orOfEq e ms) := by
+  intro ms
+  induction ms with
+  | nil => intro a; simp [evalIn, orOfEq, eval]
+  | cons m ms ih =>
+    intro a
+    have hrest : ∀ a', evalIn O env false v a' ms =
+        (eval O env (orOfEq e ms)).bind (fun rv => .ok (.bool rv.truthy)) := by
+      intro a'
+      rw [ih a']
+      cases hr : eval O env (orOfEq e ms) with
+      | ok r => obtain ⟨b, hb⟩ := eval_orOfEq_bool O env e ms r hr; subst hb; simp [Outcome.bind, Value.truthy]
+      | error k => rfl
+      | panic s => rfl
+      | oracleMissing w => rfl
+    simp only [evalIn, orOfEq, eval, he, bind, Outcome.bind, pure]
+    cases hm : eval O env m with
+    | error k => rfl
+    | panic s => rfl
+    | oracleMissing w => rfl
+    | ok x =>
+      simp only
+      by_cases hx : x.isNull = true
+      · -- a NULL member: `e = NULL` is false, the next members decide
+        have hxn : x = .null := by cases x <;> simp_all [Value.isNull]
+        subst hxn
+        simp only [Value.isNull, if_true, prepCompare_null_right, Bool.not_true, Bool.and_false, Bool.false_eq_true, if_false,
+          Value.truthy]
+        exact hrest true
+      · have hx' : x.isNull = false := by simpa using hx
+        simp only [hx', Bool.false_eq_true, if_false]
+        by_cases hv : v.isNull = true
+        · have hvn : v = .null := by cases v <;> simp_all [Value.isNull]
+          subst hvn
+          simp only [Value.isNull, if_true, prepCompare_null_left O x hx', Bool.not_true, Bool.false_and, Bool.false_eq_true,
+            if_false, Value.truthy]
+          exact hrest a
+        · have hv' : v.isNull = false := by simpa using hv
+          simp only [hv', Bool.false_eq_true, if_false]
+          cases hp : prepCompare O v x with
+          | error k => rfl
+          | panic s => rfl
+          | oracleMissing w => rfl
+          | ok p =>
+            obtain ⟨a', b'⟩ := p
+            obtain ⟨ha, hb⟩ := prepCompare_nonnull O v x a' b' hv' hx' hp
+            simp only [ha, hb, Bool.not_false, Bool.and_self, if_true, applyCmp]
+            by_cases hc : (compareValues a' b' == Ordering.eq) = true
+            · simp [hc, Value.truthy]
+            · have hc' : (compareValues a' b' == Ordering.eq) = false := by simpa using hc
+              simp only [hc', Bool.false_eq_true, if_false, Value.truthy, Bool.not_false]
+              exact hrest a
+
+/-- **`x IN (v1, …, vn)` means `x = v1 OR … OR x = vn`**: the evaluator gives `IN` exactly the outcome it gives the
+OR-chain of its own `=` — the same value, and the same error when some member cannot be compared with `x` before a
+match was found. For arbitrary operand and member expressions. -/
+theorem in_is_or_of_eq (e : Expr) (ms : List Expr) :
+    eval O env (.inList false e ms) = (eval O env e).bind (fun _ => eval O env (orOfEq e ms)) := by
+  cases he : eval O env e with
+  | ok v => simp only [eval, he, bind, Outcome.bind]; exact evalIn_is_or O env e v he ms v.isNull
+  | error k => simp [eval, he, bind, Outcome.bind]
+  | panic s => simp [eval, he, bind, Outcome.bind]
+  | oracleMissing w => simp [eval, he, bind, Outcome.bind]
+
+/-- the membership tests over already evaluated, comparable operands -/
 def notInSpec (v : Value) (xs : List Value) : Bool :=
   xs.all (fun x => !v.isNull && !x.isNull && compareValues v x != .eq)
 
-theorem evalIn_in (v : Value) : ∀ (xs : List Value) (anyNull : Bool), (v.isNull = true → anyNull = true) →
-    evalIn O env false v anyNull (xs.map .value) = .ok (.bool (inSpec v xs)) := by
-  intro xs
-  induction xs with
-  | nil => intro a _; simp [evalIn, inSpec]
-  | cons x xs ih =>
-    intro a ha
-    simp only [List.map, evalIn, eval, bind, Outcome.bind, pure, inSpec, List.any_cons]
-    by_cases hx : x.isNull = true
-    · simp only [hx, if_true]; rw [ih true (fun _ => rfl)]; simp [inSpec]
-    · simp only [hx]
-      by_cases hc : compareValues v x = .eq
-      · by_cases hv : v.isNull = true
-        · -- a NULL operand never compares equal to a non-NULL member
-          cases v <;> simp [Value.isNull] at hv
-          cases x <;> simp_all [compareValues, Value.cmp, Value.rank, Value.isNull]
-        · simp [hc, hv]
-      · have hc' : (compareValues v x == Ordering.eq) = false := by
-          cases h : compareValues v x <;> simp_all
-        simp only [hc', Bool.false_eq_true, if_false]; rw [ih a ha]; simp [inSpec]
-
-/-- `x IN (v1, …, vn)` means `x = v1 OR … OR x = vn` (each `=` false on NULL) -/
-theorem in_is_or_of_eq (e : Expr) (v : Value) (xs : List Value) (he : eval O env e = .ok v) :
-    eval O env (.inList false e (xs.map .value)) = .ok (.bool (inSpec v xs)) := by
-  simp only [eval, he, bind, Outcome.bind]
-  exact evalIn_in O env v xs v.isNull (fun h => h)
+/-- `x` can be compared with `m` without coercion or type error: what `=` / `!=` then compute is `compareValues` -/
+def PlainComparable (v x : Value) : Prop := prepCompare O v x = .ok (v, x)
 
 theorem evalIn_notIn (v : Value) : ∀ (xs : List Value) (anyNull : Bool), (v.isNull = true → anyNull = true) →
+    (∀ x ∈ xs, PlainComparable O v x) →
     evalIn O env true v anyNull (xs.map .value) = .ok (.bool (!anyNull && notInSpec v xs)) := by
   intro xs
   induction xs with
-  | nil => intro a _; simp [evalIn, notInSpec]
+  | nil => intro a _ _; simp [evalIn, notInSpec]
   | cons x xs ih =>
-    intro a ha
+    intro a ha hc
+    have hcx := hc x List.mem_cons_self
+    have hcs : ∀ y ∈ xs, PlainComparable O v y := fun y hy => hc y (List.mem_cons_of_mem _ hy)
     simp only [List.map, evalIn, eval, bind, Outcome.bind, pure, notInSpec, List.all_cons]
     by_cases hx : x.isNull = true
-    · simp only [hx, if_true]; rw [ih true (fun _ => rfl)]; simp
+    · simp only [hx, if_true]; rw [ih true (fun _ => rfl) hcs]; simp
     · simp only [hx]
-      by_cases hc : compareValues v x = .eq
-      · simp [hc]
-      · have hc' : (compareValues v x == Ordering.eq) = false := by
-          cases h : compareValues v x <;> simp_all
-        simp only [hc', Bool.false_eq_true, if_false]; rw [ih a ha]
-        by_cases hv : v.isNull = true
-        · simp [ha hv]
-        · have hne : (compareValues v x != Ordering.eq) = true := by simp [bne, hc']
+      by_cases hv : v.isNull = true
+      · simp only [hv, if_true, Bool.false_eq_true, if_false]
+        rw [ih a ha hcs]; simp [ha hv]
+      · simp only [hv, Bool.false_eq_true, if_false]
+        unfold PlainComparable at hcx
+        rw [hcx]
+        simp only [Outcome.bind]
+        by_cases hcq : compareValues v x = .eq
+        · simp [hcq]
+        · have hc' : (compareValues v x == Ordering.eq) = false := by
+            cases h : compareValues v x <;> simp_all
+          simp only [hc', Bool.false_eq_true, if_false]; rw [ih a ha hcs]
+          have hne : (compareValues v x != Ordering.eq) = true := by simp [bne, hc']
           simp [hv, notInSpec, hne]
 
-/-- `x NOT IN (v1, …, vn)` (n ≥ 1) means `x != v1 AND … AND x != vn` (each `!=` false on NULL) -/
-theorem notin_is_and_of_ne (e : Expr) (v : Value) (x : Value) (xs : List Value) (he : eval O env e = .ok v) :
+/-- **`x NOT IN (v1, …, vn)` (n ≥ 1) means `x != v1 AND … AND x != vn`** (each `!=` false on NULL), whenever every
+member can be compared with `x` (`PlainComparable`: when some member cannot, `NOT IN` reports the error even if an
+earlier NULL member has already made the conjunction false — the sentence does not say whether that error surfaces).
+The NULL-free, comparable case is the AND-chain of the evaluator's own `!=`: `notin_is_and_chain` below. -/
+theorem notin_is_and_of_ne (e : Expr) (v : Value) (x : Value) (xs : List Value) (he : eval O env e = .ok v)
+    (hc : ∀ y ∈ x :: xs, PlainComparable O v y) :
     eval O env (.inList true e ((x :: xs).map .value)) = .ok (.bool (notInSpec v (x :: xs))) := by
   simp only [eval, he, bind, Outcome.bind]
-  rw [evalIn_notIn O env v (x :: xs) v.isNull (fun h => h)]
+  rw [evalIn_notIn O env v (x :: xs) v.isNull (fun h => h) hc]
   by_cases hv : v.isNull = true
   · simp [hv, notInSpec]
   · simp [hv]
+
+/-- the AND-chain of the evaluator's `!=` over literal members computes the same conjunction -/
+theorem andOfNe_value (e : Expr) (v : Value) (he : eval O env e = .ok v) :
+    ∀ (xs : List Value), (∀ y ∈ xs, PlainComparable O v y) →
+      eval O env (andOfNe e (xs.map .value)) = .ok (.bool (notInSpec v xs)) := by
+  intro xs
+  induction xs with
+  | nil => intro _; simp [andOfNe, eval, notInSpec]
+  | cons x xs ih =>
+    intro hc
+    have hcx := hc x List.mem_cons_self
+    have hcs : ∀ y ∈ xs, PlainComparable O v y := fun y hy => hc y (List.mem_cons_of_mem _ hy)
+    unfold PlainComparable at hcx
+    simp only [List.map, andOfNe, eval, he, bind, Outcome.bind, pure, hcx, notInSpec, List.all_cons]
+    by_cases hn : (!v.isNull && !x.isNull) = true
+    · simp only [hn, if_true, applyCmp, Bool.true_and]
+      by_cases hne : (compareValues v x != Ordering.eq) = true
+      · simp only [hne, Value.truthy, if_true]
+        have := ih hcs
+        rw [this]
+        simp [Outcome.bind, Value.truthy, notInSpec]
+      · have : (compareValues v x != Ordering.eq) = false := by simpa using hne
+        simp [this, Value.truthy]
+    · have : (!v.isNull && !x.isNull) = false := by simpa using hn
+      simp [this, Value.truthy]
+
+/-- `x NOT IN (literals)` IS the AND-chain of `x != literal`, when every literal is comparable with `x` -/
+theorem notin_is_and_chain (e : Expr) (v : Value) (x : Value) (xs : List Value) (he : eval O env e = .ok v)
+    (hc : ∀ y ∈ x :: xs, PlainComparable O v y) :
+    eval O env (.inList true e ((x :: xs).map .value)) = eval O env (andOfNe e ((x :: xs).map .value)) := by
+  rw [notin_is_and_of_ne O env e v x xs he hc, andOfNe_value O env e v he (x :: xs) hc]
 
 /-- CASE takes the first true branch -/
 theorem case_first_true (c r els : Expr) (rest : List (Expr × Expr)) (cv : Value)
@@ -156,11 +324,20 @@ theorem subscript_one_based (a i : Expr) (t : VType) (xs : List Value) (n : Int)
 theorem cmp_type_mismatch_is_error (op : CmpOp) (l r : Expr) (x : Int) (s : Bytes)
     (hl : eval O env l = .ok (.int x)) (hr : eval O env r = .ok (.text s)) :
     eval O env (.compare op l r) = .error .typeError := by
-  simp [eval, hl, hr, bind, Outcome.bind, pure, Value.isNull, typesComparable, Value.valueType]
+  simp [eval, hl, hr, bind, Outcome.bind, pure, prepCompare, coerceTs, Value.isNull, typesComparable, Value.valueType]
+
+/-- a member of another type makes IN a type error, exactly as `=` is (D53, repaired) -/
+theorem in_type_mismatch_is_error (e m : Expr) (x : Int) (s : Bytes)
+    (he : eval O env e = .ok (.int x)) (hm : eval O env m = .ok (.text s)) :
+    eval O env (.inList false e [m]) = .error .typeError := by
+  rw [in_is_or_of_eq]
+  simp [he, Outcome.bind, orOfEq, eval, hm, bind, pure, prepCompare, coerceTs, Value.isNull, typesComparable, Value.valueType]
 
 /-- non-vacuity: the hypotheses above are met by concrete expressions -/
 example : eval {} {} (.inList false (.value (.int 5)) ([.int 5, .null].map .value)) = .ok (.bool true) := by rfl
 example : eval {} {} (.inList true (.value .null) ([.int 5, .int 7].map .value)) = .ok (.bool false) := by rfl
+example : PlainComparable {} (.int 5) (.real 0x3ff8000000000000) := by rfl
+example : eval {} {} (.inList false (.value (.text [97])) [.value (.int 1)]) = .error .typeError := by rfl
 example : eval {} {} (.compare .gt (.value (.int 2)) (.value (.real 0x3ff8000000000000))) = .ok (.bool true) := by rfl
 example : eval {} {} (.arith .add (.value (.int 9223372036854775807)) (.value (.int 1))) = .error .undefinedOperation := by rfl
 example : eval {} {} (.arith .div (.value (.int 1)) (.value (.int 0))) = .error .undefinedOperation := by rfl
